@@ -499,6 +499,88 @@ func checkC12(p *Prog, r *Report) {
 	// ---- R12.8 exhaustive clean-up / migration loops ----
 	r.Rule("R12.8", "The loops that must treat every element of a collection do so: no early exit, and no path through an iteration that skips the operation (closing the mux closes every connection of both families).", 2)
 	checkForAllLoops(p, r, "C12")
+
+	// ---- R12.9 the canonical form itself ------------------------------------------------------------------
+	r.Rule("R12.9", "canonicalAddr unmaps before it decides anything: every value it returns derives from the unmapped address, so the 4-byte and the IPv4-in-IPv6 spelling of one address always yield the same key (link-local IPv4 included).", 1)
+	if f := p.Fn("canonicalAddr"); r.Anchor("canonicalAddr", f != nil) {
+		par := p.paramObj(f, 0)
+		ok, n := true, 0
+		why := ""
+		walkBody(f, func(x ast.Node) bool {
+			rs, isR := x.(*ast.ReturnStmt)
+			if !isR || len(rs.Results) != 1 {
+				return true
+			}
+			n++
+			// the returned value: a chain of method calls on an identifier
+			e := unparen(rs.Results[0])
+			unmapped := false
+			for {
+				c, isC := e.(*ast.CallExpr)
+				if !isC {
+					break
+				}
+				sel, isS := unparen(c.Fun).(*ast.SelectorExpr)
+				if !isS {
+					break
+				}
+				if p.CalleeName(c) == "net/netip.Addr.Unmap" {
+					unmapped = true
+				}
+				e = unparen(sel.X)
+			}
+			if id, isID := e.(*ast.Ident); isID && !unmapped {
+				d, okd := p.reachingDef(f, id, p.ObjOf(id))
+				if okd && d.Rhs != nil && p.mentionsCall(d.Rhs, "net/netip.Addr.Unmap") {
+					unmapped = true
+				}
+				if !okd && p.ObjOf(id) == par {
+					unmapped = false
+				}
+			}
+			if !unmapped {
+				ok, why = false, "a return yields "+stripVarLines(p.Canon(rs.Results[0]))+" without having unmapped the address ("+p.Pos(rs.Pos())+")"
+			}
+			return true
+		})
+		// and the family / link-local decision is taken on the unmapped value
+		for _, c := range p.CallsTo(f, false, "ice.isIPv6LinkLocal") {
+			if id, isID := unparen(c.Args[0]).(*ast.Ident); isID {
+				d, okd := p.reachingDef(f, id, p.ObjOf(id))
+				if !(okd && d.Rhs != nil && p.mentionsCall(d.Rhs, "net/netip.Addr.Unmap")) {
+					ok, why = false, "the link-local test is applied to the address before it was unmapped"
+				}
+			}
+		}
+		r.Check(ok && n > 0, "canonicalAddr returns only unmapped addresses", p.Pos(f.Body.Pos()), itoa(n)+" returns", why+": the two spellings of one IPv4 address get different keys, a takeover by the other spelling is missed and replies go to the previous owner")
+	}
+
+	// only the enqueue side links packets into the queue
+	r.curRule = "R12.5"
+	if f := p.Fn("udpMuxedConn.readPacket"); f != nil {
+		okRead := true
+		why := ""
+		walkBody(f, func(x ast.Node) bool {
+			as, isA := x.(*ast.AssignStmt)
+			if !isA {
+				return true
+			}
+			for i, l := range as.Lhs {
+				sel, isS := unparen(l).(*ast.SelectorExpr)
+				if !isS || i >= len(as.Rhs) {
+					continue
+				}
+				switch {
+				case p.IsField(sel, "udpMuxedConn.bufHead") && !p.isNilExpr(as.Rhs[i]):
+					okRead, why = false, "readPacket stores a packet into the insertion end of the queue"
+				case sel.Sel.Name == "next" && p.FieldOf(sel) != nil && !p.isNilExpr(as.Rhs[i]):
+					okRead, why = false, "readPacket links a packet behind another one"
+				}
+			}
+			return true
+		})
+		r.Check(okRead, "readPacket only dequeues", p.Pos(f.Body.Pos()), "no store into the insertion end, no linking", why+": a datagram put back by the reader lands behind newer ones and the connection no longer delivers in arrival order")
+	}
 }
 
 // reachesViaRead: every path from b to target passes the socket read (i.e.
